@@ -8,6 +8,9 @@ from concurrent.futures import ThreadPoolExecutor
 import common
 import tlc
 
+# TLC -simulate is seeded (VERIF_SEED): runs are reproducible
+SIM_SEED = int(__import__("os").environ.get("VERIF_SEED", "1"))
+
 TIMEOUT_MS = 10
 
 
@@ -218,7 +221,7 @@ def explore(scenarios, wd, simulate=None, timeout=1500, workers=4, tlc_workers=4
 
     def one(job):
         sc, name = job
-        extra = ["-simulate", "num=%d" % simulate, "-depth", str(depth)] if simulate else []
+        extra = ["-simulate", "num=%d" % simulate, "-depth", str(depth), "-seed", str(SIM_SEED), "-aril", "0"] if simulate else []
         rc, out, secs = tlc.run_tlc(name + ".tla", name + ".cfg", workers=1 if simulate else tlc_workers, timeout=timeout,
                                     extra=extra, heap="6g", cwd=sdir)
         if "Error:" in out or ("No error has been found" not in out and not simulate):
